@@ -27,7 +27,16 @@ def run(case):
     res = dict(secrets)
     res.update(plain)
     mw = SignedCookieMiddleware(secret_key='K3Y-MATERIAL')
-    app = Application([('/', lambda: Response('x')), ('/_meta/', MetaApplication())], resources=res, middlewares=[mw])
+    from clastic.middleware import Middleware
+
+    class ViewProvides(Middleware):
+        # a sized iterable that is neither list, tuple nor set
+        def __init__(self):
+            self.provides = {'vp_a': 1, 'vp_b': 2}.keys()
+
+        def request(self, next):
+            return next(vp_a=1, vp_b=2)
+    app = Application([('/', lambda: Response('x')), ('/_meta/', MetaApplication())], resources=res, middlewares=[mw, ViewProvides()])
     outer = Application([('/deep/', app)])
     problems = []
     for a, prefix in ((app, ''), (outer, '/deep')):
